@@ -25,6 +25,48 @@ def to_sel(rows):
     return ("slice", rows[0], rows[-1] + 1, rows[1] - rows[0])
 
 
+def two_archives(task):
+    """two deliveries of one scene packed reproducibly (same member names, sizes and member times, other samples) as archives, opened one after
+    the other in one process: each returns its OWN samples"""
+    import io
+    import tarfile
+    import zipfile
+
+    import ceos_alos2
+
+    from harness import oracle, product
+
+    base = checklib.fresh_dir("arch2_")
+    built = [product.build_product(level=task["level"], images=(("HH", None, 4, 3), ("HV", None, 4, 3)), seed=task["seed"] + 31 * k) for k in range(2)]
+    urls = []
+    for k, b in enumerate(built):
+        arc = os.path.join(base, f"delivery{k}.{task['kind']}")
+        if task["kind"] == "tar":
+            with tarfile.open(arc, "w") as t:
+                for n in sorted(b.files):
+                    ti = tarfile.TarInfo(f"prod/{n}")
+                    ti.size, ti.mtime = len(b.files[n]), 1400000000
+                    t.addfile(ti, io.BytesIO(bytes(b.files[n])))
+        else:
+            with zipfile.ZipFile(arc, "w") as z:
+                for n in sorted(b.files):
+                    z.writestr(zipfile.ZipInfo(f"prod/{n}", date_time=(2014, 8, 29, 3, 4, 6)), bytes(b.files[n]))
+        urls.append(f"{task['kind']}://prod::{arc}")
+    out = {"task": task, "bad": [], "n": 0}
+    order = [0, 1, 0] if task["order"] == 0 else [1, 0, 1]
+    for step, k in enumerate(order):
+        try:
+            tree = ceos_alos2.open_alos2(urls[k], backend_options=dict(use_cache=False, records_per_chunk=task["rpc"]))
+            for im in built[k].images:
+                out["n"] += 1
+                msg = oracle.pixels_match(tree[f"imagery/{im['group']}/data"].values, im)
+                if msg:
+                    out["bad"].append((f"two-archives:{task['kind']}", f"open #{step + 1} (delivery {k} after {[f'delivery {j}' for j in order[:step]]}): {im['group']}: {msg}"))
+        except BaseException as e:  # noqa: B902
+            out["bad"].append((f"two-archives:{task['kind']}:raises", f"open #{step + 1} of delivery {k}: {type(e).__name__}: {str(e)[:120]}"))
+    return out
+
+
 def body(chk):
     from harness import imgrun, iotrace, tlc
     from harness import layout as L
@@ -178,6 +220,12 @@ def body(chk):
         for what, msg in res["bad"]:
             if what.startswith("cached-open"):
                 chk.violation(f"pixels:relocated-index:{res['task']['fs']}", f"product copied elsewhere together with its index files, old place overwritten: {msg}", {"task": res["task"]})
+    atasks = [dict(kind=kd, level=("1.5", "1.1")[i % 2], order=i % 2, rpc=(2, 1024)[i % 2], seed=chk.seed + 26000 + i) for i, kd in enumerate(("tar", "zip", "tar", "zip"))]
+    L.instances([dict(file="image", kind="processed", n=4, ndata=6, bps=2), dict(file="image", kind="signal", n=4, ndata=24, bps=8), dict(file="volume", nfp=4)])
+    for res in checklib.pmap(two_archives, atasks, chk.scratch):
+        chk.count(res["n"], f"two-archives:{res['task']['kind']}:{res['task']['order']}")
+        for key, msg in res["bad"][:2]:
+            chk.violation(f"pixels:{key}", msg, {"task": res["task"]})
     from harness import sessioncheck
 
     sessioncheck.standard(chk)
